@@ -23,6 +23,10 @@
 (* "remote" the application of one remote operation (same path, not queued *)
 (* for push).                                                              *)
 (*                                                                         *)
+(* A user transaction whose function returns an error ("txfail") is rolled *)
+(* back by its EndTransaction: success is cleared before the "end" gate,   *)
+(* and whoever ends the transaction reads it.                              *)
+(*                                                                         *)
 (* Guarded = TRUE is the code as repaired (the re-entrancy test requires a *)
 (* non-nil context, and unlock() clears isLocked before it releases the    *)
 (* mutex); Guarded = FALSE is the code as it was, kept so that TLC can     *)
@@ -33,6 +37,7 @@ EXTENDS Integers, Sequences, FiniteSets, TLC
 CONSTANTS Procs,      \* process ids
           KindOf,     \* [p \in Procs |-> "op" | "tx" | "remote"]  (given as three sets below)
           OpProcs, TxProcs, RemoteProcs,
+          FailProcs,  \* the user transactions of these processes (a subset of TxProcs) fail: their function returns an error
           Calls,      \* calls per process
           TxLen,      \* operations in a user transaction
           Guarded
@@ -49,14 +54,16 @@ VARIABLES pc,        \* pc[p]: the gate p is parked at: "idle", "check", "lock",
           opbuf,     \* txCtx.opBuffer of the context currently installed (operations of the open transaction)
           buffer,    \* operations queued for push (localBuffer), as <<p, call, k>>
           nctx,      \* context ids handed out
+          success,   \* TransactionDatatype.success: cleared by SetTransactionFail when a transaction's function returns an
+                     \* error, read by EndTransaction (commit or roll back), set again by unlock()
           act, hist
-vars == <<pc, mutex, isLocked, txCtx, mine, arg, inner, ncall, val, seq, opbuf, buffer, nctx, act, hist>>
+vars == <<pc, mutex, isLocked, txCtx, mine, arg, inner, ncall, val, seq, opbuf, buffer, nctx, success, act, hist>>
 
 Kind(p) == IF p \in TxProcs THEN "tx" ELSE IF p \in RemoteProcs THEN "remote" ELSE "op"
 
 Init == /\ pc = [p \in Procs |-> "idle"] /\ mutex = 0 /\ isLocked = FALSE /\ txCtx = 0
         /\ mine = [p \in Procs |-> 0] /\ arg = [p \in Procs |-> 0] /\ inner = [p \in Procs |-> -1]
-        /\ ncall = [p \in Procs |-> 0] /\ val = 0 /\ seq = 0 /\ opbuf = <<>> /\ buffer = <<>> /\ nctx = 0
+        /\ ncall = [p \in Procs |-> 0] /\ val = 0 /\ seq = 0 /\ opbuf = <<>> /\ buffer = <<>> /\ nctx = 0 /\ success = TRUE
         /\ act = [name |-> "init"] /\ hist = <<>>
 Record(p, from, to) == act' = [name |-> "step", p |-> p, from |-> from, to |-> to] /\ hist' = Append(hist, [p |-> p, from |-> from, to |-> to])
 Goto(p, l) == pc' = [pc EXCEPT ![p] = l]
@@ -135,28 +142,36 @@ End(p) ==
             /\ IF inner[p] + 1 < TxLen
                THEN Goto(p, "check") /\ Record(p, "end", "check")
                ELSE Goto(p, "end") /\ Record(p, "end", "end")      \* the closure returned: DoTransaction's EndTransaction
+            \* a failing function: SetTransactionFail runs before DoTransaction's deferred EndTransaction
+            /\ success' = IF inner[p] + 1 = TxLen /\ p \in FailProcs THEN FALSE ELSE success
             /\ UNCHANGED <<mutex, isLocked, txCtx, mine, arg, ncall, val, seq, opbuf, buffer, nctx>>
        ELSE IF mine[p] = txCtx
             THEN \* (unguarded, mine = 0 = txCtx can hold for a call that never took the lock)
-                 /\ buffer' = IF Kind(p) = "remote" THEN buffer ELSE buffer \o opbuf
+                 \* committed: the operations are queued for push; failed: Rollback() - the snapshot and the operation id
+                 \* go back to what they were before the transaction (its header and its operations), nothing is queued
+                 /\ buffer' = IF Kind(p) = "remote" \/ ~success THEN buffer ELSE buffer \o opbuf
+                 /\ val' = IF success THEN val ELSE val - (Len(opbuf) - 1)
+                 /\ seq' = IF success THEN seq ELSE seq - Len(opbuf)
                  /\ opbuf' = <<>>
                  /\ IF isLocked
                     THEN \* unlock(): as repaired, the flag is cleared before the mutex is released
                          /\ txCtx' = 0 /\ mutex' = 0 /\ Goto(p, "unlocked") /\ Record(p, "end", "unlocked")
                          /\ isLocked' = IF Guarded THEN FALSE ELSE isLocked
+                         /\ success' = TRUE
                          /\ UNCHANGED <<mine, inner, ncall>>
                     ELSE /\ Goto(p, "idle") /\ Record(p, "end", "idle") /\ Finish(p)
-                         /\ UNCHANGED <<txCtx, mutex, isLocked>>
-                 /\ UNCHANGED <<arg, val, seq, nctx>>
+                         /\ UNCHANGED <<txCtx, mutex, isLocked, success>>
+                 /\ UNCHANGED <<arg, nctx>>
             ELSE /\ Goto(p, "idle") /\ Record(p, "end", "idle") /\ Finish(p)
-                 /\ UNCHANGED <<mutex, isLocked, txCtx, arg, val, seq, opbuf, buffer, nctx>>
+                 /\ UNCHANGED <<mutex, isLocked, txCtx, arg, val, seq, opbuf, buffer, nctx, success>>
 
 Unlocked(p) == /\ pc[p] = "unlocked"
                /\ isLocked' = (IF Guarded THEN isLocked ELSE FALSE)      \* as it was: cleared only now, after the mutex was released
                /\ Goto(p, "idle") /\ Record(p, "unlocked", "idle") /\ Finish(p)
                /\ UNCHANGED <<mutex, txCtx, arg, val, seq, opbuf, buffer, nctx>>
 
-Next == \E p \in Procs : Start(p) \/ Check(p) \/ Lock(p) \/ Locked(p) \/ Flagged(p) \/ End(p) \/ Unlocked(p)
+Next == \E p \in Procs : \/ ((Start(p) \/ Check(p) \/ Lock(p) \/ Locked(p) \/ Flagged(p) \/ Unlocked(p)) /\ UNCHANGED success)
+                         \/ End(p)
 Spec == Init /\ [][Next]_vars
 
 ---------------------------------------------------------------------------
@@ -169,15 +184,15 @@ MutualExclusion == \A p, q \in Procs : (p # q /\ Critical(p) /\ Critical(q)) => 
 \* the mutex is only ever held by a goroutine that is still inside its call (else nobody will release it)
 NoLostUnlock == mutex # 0 => pc[mutex] \in {"locked", "flagged", "end", "check"}
 \* at the end: no update lost, every local operation queued exactly once, transactions contiguous
-Expected == LET n(p) == IF Kind(p) = "tx" THEN Calls * TxLen ELSE Calls IN
+Expected == LET n(p) == IF p \in FailProcs THEN 0 ELSE IF Kind(p) = "tx" THEN Calls * TxLen ELSE Calls IN
             [total |-> LET RECURSIVE S(_) S(Q) == IF Q = {} THEN 0 ELSE LET p == CHOOSE p \in Q : TRUE IN n(p) + S(Q \ {p}) IN S(Procs)]
 NoLostUpdate == AllDone => val = Expected.total
 QueuedOnce == AllDone => /\ \A i, j \in 1..Len(buffer) : i # j => buffer[i] # buffer[j]
                          /\ \A p \in Procs \ RemoteProcs : \A c \in 1..Calls :
                               LET mineOps == SelectSeq(buffer, LAMBDA o : o[1] = p /\ o[2] = c) IN
-                              Len(mineOps) = (IF Kind(p) = "tx" THEN TxLen + 1 ELSE 1)
+                              Len(mineOps) = (IF p \in FailProcs THEN 0 ELSE IF Kind(p) = "tx" THEN TxLen + 1 ELSE 1)
 \* a transaction's unit is contiguous in the queue: no other goroutine's operation in between
 TxContiguous == \A i, j \in 1..Len(buffer) : (i < j /\ buffer[i][1] = buffer[j][1] /\ buffer[i][2] = buffer[j][2]) =>
                     \A k \in i..j : buffer[k][1] = buffer[i][1] /\ buffer[k][2] = buffer[i][2]
-StateView == <<pc, mutex, isLocked, txCtx, mine, arg, inner, ncall, val, seq, opbuf, buffer, nctx>>
+StateView == <<pc, mutex, isLocked, txCtx, mine, arg, inner, ncall, val, seq, opbuf, buffer, nctx, success>>
 ====
